@@ -39,6 +39,11 @@ def run(ck: Checker):
 
     with ck.as_rule('C06-10', 'slots are returned also through an ensemble stage: every request whose member answers are all in is emitted exactly once (the ensemble catalog obligations C02-5: one increment per answer, completion by count, emit or completion test after every recorded answer, one catalog pop per emit)', minimum=6):
         c02.check_ensemble(ck, 'C02-5')
+    ck.rule('C06-14', 'the thread that returns the slots stays alive: the gather loop cannot be ended by a future that the caller cancelled concurrently (InvalidStateError handled in the loop, or resolution deferred to the event loop) nor by an id that is no longer in the ledger (the C07-1 / C07-2 obligations) — a dead gather thread returns no slot ever again', minimum=4)
+    for name in server.SERVERS:
+        s_ = server.discover(ck.repo, name)
+        server.check_race_free_resolution(ck, 'C06-14', s_)
+        server.check_unknown_id_tolerated(ck, 'C06-14', s_)
     ck.rule('C06-11', "the admission wait's timeout becomes ServerBacklogFull: the handler around the timed wait catches the class the standard library raises, not only the module's own re-bound TimeoutError subclass", minimum=2)
     from .common import check_std_timeout_handlers
 
